@@ -39,7 +39,17 @@ pub fn builtin_make_array(sz: BoundedI32<0, { i32::MAX }>, func: FuncVal) -> Res
 #[builtin]
 pub fn builtin_repeat(what: Either![IStr, ArrValue], count: usize) -> Result<Val> {
 	Ok(match what {
-		Either2::A(s) => Val::string(s.repeat(count)),
+		Either2::A(s) => {
+			// Strings are limited to 4GB, do not attempt to allocate more than that
+			if s
+				.len()
+				.checked_mul(count)
+				.is_none_or(|len| len > u32::MAX as usize)
+			{
+				bail!("repeated string is too long");
+			}
+			Val::string(s.repeat(count))
+		}
 		Either2::B(arr) => Val::Arr(
 			ArrValue::repeated(arr, count)
 				.ok_or_else(|| runtime_error!("repeated length overflow"))?,
